@@ -5,6 +5,7 @@ import (
 	"fmt"
 	"math"
 	"reflect"
+	"sync/atomic"
 	"time"
 
 	at "github.com/DanielSvub/anytype"
@@ -535,25 +536,47 @@ func runC12(c *ev.Ctx) {
 		names[i] = e.Name
 	}
 	c.Set("entry_points", names)
+	// Two phases. A value that a synchronous entry point mishandles (rejects although supported, say) is NOT sent
+	// through the async entry points afterwards: there the library converts the callback's result inside a worker
+	// goroutine, where a panic cannot be recovered by anybody and would end the whole check before it has reported.
+	var syncE, asyncE []c12Entry
+	for _, e := range entries {
+		if e.Name == "list.MapAsync" || e.Name == "object.MapAsync" {
+			asyncE = append(asyncE, e)
+		} else {
+			syncE = append(syncE, e)
+		}
+	}
+	bad := make([]int32, len(vals))
 	total := int64(len(vals)) * int64(len(entries))
-	done := par.Range(c.Workers, total, 4096, func() bool { return c.Expired() || c.TooMany() }, func(w int, idx int64) {
-		e := entries[idx%int64(len(entries))]
-		val := vals[idx/int64(len(entries))]
-		c.Eval(1)
-		switch val.Class {
-		case "int", "float64", "string", "bool", "nil":
-		default:
-			c.NontrivialH(uint64(idx)*2654435761 + 1)
-		}
-		if idx%400009 == 11 {
-			c.Sample(map[string]interface{}{"entry": e.Name, "go_type": fmt.Sprintf("%T", val.In), "value": fmt.Sprintf("%v", val.In), "class": val.Class})
-		}
-		if msg, sig := c12One(e, val); msg != "" {
-			c.Violate(ev.Violation{Sig: sig + "/" + e.Name, Msg: msg, Witness: map[string]interface{}{"entry": e.Name, "go_type": fmt.Sprintf("%T", val.In), "value": fmt.Sprintf("%#v", val.In)}},
-				func() string { _, s := c12One(e, val); return s + "/" + e.Name })
-		}
-	})
-	if done < total {
+	var done int64
+	for phase, entries := range [][]c12Entry{syncE, asyncE} {
+		phase, entries := phase, entries
+		ptotal := int64(len(vals)) * int64(len(entries))
+		done += par.Range(c.Workers, ptotal, 4096, func() bool { return c.Expired() || c.TooMany() }, func(w int, idx int64) {
+			e := entries[idx%int64(len(entries))]
+			vi := idx / int64(len(entries))
+			val := vals[vi]
+			if phase == 1 && atomic.LoadInt32(&bad[vi]) != 0 {
+				return
+			}
+			c.Eval(1)
+			switch val.Class {
+			case "int", "float64", "string", "bool", "nil":
+			default:
+				c.NontrivialH(uint64(idx)*2654435761 + 1)
+			}
+			if idx%400009 == 11 {
+				c.Sample(map[string]interface{}{"entry": e.Name, "go_type": fmt.Sprintf("%T", val.In), "value": fmt.Sprintf("%v", val.In), "class": val.Class})
+			}
+			if msg, sig := c12One(e, val); msg != "" {
+				atomic.StoreInt32(&bad[vi], 1)
+				c.Violate(ev.Violation{Sig: sig + "/" + e.Name, Msg: msg, Witness: map[string]interface{}{"entry": e.Name, "go_type": fmt.Sprintf("%T", val.In), "value": fmt.Sprintf("%#v", val.In)}},
+					func() string { _, s := c12One(e, val); return s + "/" + e.Name })
+			}
+		})
+	}
+	if done < total && (c.Expired() || c.TooMany()) {
 		c.Cut(fmt.Sprintf("%d of %d (value, entry) pairs", done, total))
 	}
 	// freshness: a native source mutated after construction must not show through
